@@ -131,7 +131,13 @@ fn sq_plus(e: Expr, c: f64) -> Expr {
 /// point `x` into safe forms. Deterministic; returns the rewritten tree and the number of
 /// rewrites applied.
 pub fn sanitise(e: &Expr, x: &[f64], rewrites: &mut usize) -> Expr {
-    let s = |a: &Expr, rw: &mut usize| sanitise(a, x, rw);
+    sanitise_for(e, x, rewrites, 1.0)
+}
+
+/// `min_int_power`: the smallest integer power that is allowed on an arbitrary (zero, negative)
+/// base: 1 when only first derivatives are judged, 2 when second derivatives are judged too.
+pub fn sanitise_for(e: &Expr, x: &[f64], rewrites: &mut usize, min_int_power: f64) -> Expr {
+    let s = |a: &Expr, rw: &mut usize| sanitise_for(a, x, rw, min_int_power);
     let out = match e {
         Expr::Var(_) | Expr::Const(_) => e.clone(),
         Expr::Neg(a, r) => Expr::Neg(Box::new(s(a, rewrites)), *r),
@@ -182,8 +188,10 @@ pub fn sanitise(e: &Expr, x: &[f64], rewrites: &mut usize) -> Expr {
         Expr::Pow(a, p, r) => {
             let a = s(a, rewrites);
             let v = eval_f64(&a, x);
-            let pos_int = p.0 >= 1.0 && p.0.fract() == 0.0;
-            let ok = if pos_int { v.abs() >= 0.05 } else { v >= 0.05 };
+            // x^p is (twice) differentiable everywhere - also at zero and for negative x - when p
+            // is an integer >= `min_int_power`; otherwise the base must be positive
+            let everywhere = p.0.fract() == 0.0 && (p.0 >= min_int_power || p.0 == 0.0);
+            let ok = everywhere || v >= 0.05;
             if ok {
                 Expr::Pow(Box::new(a), *p, *r)
             } else {
@@ -201,12 +209,19 @@ pub fn sanitise(e: &Expr, x: &[f64], rewrites: &mut usize) -> Expr {
             Expr::Bin(*op, *f, Box::new(l), Box::new(r))
         }
     };
-    // magnitude clamp: scale an over-large (or non-finite-bound) node back by a power of two
+    // magnitude clamp: scale an over-large or vanishingly small (but non-zero) node back by a
+    // power of two, so that no intermediate overflows or drifts into the subnormal range (where
+    // relative error bounds do not hold); exact zeros are kept - they are in the domain
     let v = eval_f64(&out, x);
-    if v.is_finite() && v.abs() > 1.0e4 {
+    if v.is_finite() && v.abs() > 1.0e12 {
         *rewrites += 1;
         let k = (v.abs() / 100.0).log2().ceil();
         return Expr::Bin(Op::Mul, Form::OwnOwn, Box::new(out), Box::new(Expr::Const(Fl(2f64.powf(-k)))));
+    }
+    if v != 0.0 && v.abs() < 1.0e-60 {
+        *rewrites += 1;
+        let k = (0.01 / v.abs()).log2().floor();
+        return Expr::Bin(Op::Mul, Form::OwnOwn, Box::new(out), Box::new(Expr::Const(Fl(2f64.powf(k)))));
     }
     out
 }
@@ -248,6 +263,11 @@ pub struct Jet {
 /// normal densities), where relative error bounds no longer hold.
 pub const UNDERFLOW_FLOOR: f64 = 1e-280;
 
+/// Third and higher order rounding terms (a cube of a quantity that is exactly zero in exact
+/// arithmetic but one rounding error in floats is ~1e-48): an absolute floor far below anything
+/// a defect could hide in.
+pub const HIGHER_ORDER_FLOOR: f64 = 1e-36;
+
 /// The float implementation of the standard normal cdf used by the library (statrs' erfc) is
 /// piecewise and has jumps of up to 2.5e-11 between neighbouring doubles at its branch points
 /// (arguments +-0.5*sqrt2, +-0.75*sqrt2, +-1.25*sqrt2, ...; measured). Two evaluations whose
@@ -279,14 +299,21 @@ impl Jet {
         j.gl[i] = 1.0;
         j
     }
+    /// are all error bounds finite (otherwise the case is outside what the tolerance model covers)?
+    pub fn bounds_finite(&self, second: bool) -> bool {
+        let ok = |x: &f64| x.is_finite() && x.abs() < 1e200;
+        ok(&self.v) && ok(&self.vmag) && ok(&self.vl) && ok(&self.va)
+            && self.g.iter().chain(&self.gmag).chain(&self.gl).chain(&self.ga).all(ok)
+            && (!second || self.h.iter().chain(&self.hmag).chain(&self.hl).chain(&self.ha).flatten().all(ok))
+    }
     pub fn vtol(&self, rel: f64) -> f64 {
-        rel * self.vmag + 1e-26 * self.vl + self.va + UNDERFLOW_FLOOR
+        rel * self.vmag + 1e-26 * self.vl + self.va + HIGHER_ORDER_FLOOR * (1.0 + self.vl) + UNDERFLOW_FLOOR
     }
     pub fn gtol(&self, i: usize, rel: f64) -> f64 {
-        rel * self.gmag[i] + 1e-24 * self.gl[i] + self.ga[i] + UNDERFLOW_FLOOR
+        rel * self.gmag[i] + 1e-24 * self.gl[i] + self.ga[i] + HIGHER_ORDER_FLOOR * (1.0 + self.gl[i]) + UNDERFLOW_FLOOR
     }
     pub fn htol(&self, i: usize, k: usize, rel: f64) -> f64 {
-        rel * self.hmag[i][k] + 1e-22 * self.hl[i][k] + self.ha[i][k] + UNDERFLOW_FLOOR
+        rel * self.hmag[i][k] + 1e-22 * self.hl[i][k] + self.ha[i][k] + HIGHER_ORDER_FLOOR * (1.0 + self.hl[i][k]) + UNDERFLOW_FLOOR
     }
     /// chain rule for a scalar function with value f0 and derivatives f1, f2, f3 at u
     fn unary(u: &Jet, f0: f64, f1: f64, f2: f64, f3: f64) -> Jet {
@@ -294,7 +321,7 @@ impl Jet {
         let mut o = Jet::constant(f0, n);
         let (a1, a2, a3) = (f1.abs(), f2.abs(), f3.abs());
         o.vmag = f0.abs() + a1 * u.vmag;
-        o.vl = f0.abs() + a1 * u.vl;
+        o.vl = f0.abs() + a1 * u.vl + a2 * u.vl * u.vl;
         o.va = a1 * u.va;
         for i in 0..n {
             o.ga[i] = a1 * u.ga[i] + a2 * u.va * u.g[i].abs();
@@ -439,13 +466,17 @@ pub fn eval_jet(e: &Expr, x: &[f64]) -> Jet {
         Expr::Pow(a, p, _) => {
             let u = eval_jet(a, x);
             let p = p.0;
-            Jet::unary(
-                &u,
-                u.v.powf(p),
-                p * u.v.powf(p - 1.0),
-                p * (p - 1.0) * u.v.powf(p - 2.0),
-                p * (p - 1.0) * (p - 2.0) * u.v.powf(p - 3.0),
-            )
+            // k-th derivative of x^p: p(p-1)..(p-k+1) x^(p-k); where the falling factorial is
+            // exactly zero the derivative vanishes identically (also at x = 0)
+            let d = |k: i32| -> f64 {
+                let c: f64 = (0..k).map(|j| p - j as f64).product();
+                if c == 0.0 {
+                    0.0
+                } else {
+                    c * u.v.powf(p - k as f64)
+                }
+            };
+            Jet::unary(&u, u.v.powf(p), d(1), d(2), d(3))
         }
         Expr::Bin(op, _, l, r) => {
             let (a, b) = (eval_jet(l, x), eval_jet(r, x));
